@@ -91,6 +91,11 @@ fn gen_cases(rng: &mut Rng, tier: Tier) -> Vec<Value> {
                 sp.clustering = Some(gen_clustering(rng, &sp));
                 return json!({"k": "clustered", "sp": sp, "row": i, "gens": gens, "relations": rng.chance(3, 4), "rseed": rng.next() % 1000});
             }
+            // one problem in five states its objectives explicitly (work balance, compact tours, arrival time, fast service,
+            // distance / duration instead of cost, maximize tours): whatever is optimised, the hard rules hold
+            if i % 5 == 3 {
+                sp.objectives = gen_objectives(rng, &sp);
+            }
             json!({"k": "solve", "sp": sp, "row": i, "gens": gens, "relations": rng.chance(1, 4), "rseed": rng.next() % 1000})
         })
         .collect()
